@@ -34,9 +34,15 @@ import (
 //                added, overwritten, variable re-bound; through aliases, user functions, nested
 //                constructs) x iterable kind x position in the body (oracle_c04_mutiter.go)
 //
+//   C04-sig      callee signatures built by reflection: ~125 parameter types (arrays, pointers to     exhaustive
+//                arrays, named types, every width, interfaces, ...) x callee form (fixed, fixed part of
+//                a variadic, variadic tail, second position, missing) x ~225 argument values (slices and
+//                arrays of every length, typed nil pointers, named values, literals); methods and funcs
+//                reached by member / index; result types (oracle_c04_sig.go)
+//
 // A case is the template text (Go-quoted); the environment is c04EnvFor(template text): c04Env(), plus
 // the shape variables sh* iff the text mentions one, plus the interface variables im* iff the text mentions one,
-// plus the multi-entry maps mu* iff the text mentions one.
+// plus the multi-entry maps mu* iff the text mentions one, plus each signature name sg* the text mentions.
 
 const c04Timeout = 3 * time.Second
 
@@ -475,7 +481,7 @@ func init() {
 		}
 		note := "A panic is attributed to plush because no helper, method or iterator of the C04 environment can panic (nil receivers/maps/funcs handled). Not generated on purpose: self-referential data (xs[0] = xs then printing xs) and recursive user functions / partials — they exhaust the Go stack, which kills the process and cannot be observed in-process; loops over huge ranges (C19's subject)."
 		// the streams are independent (own report, own random state): run them side by side
-		streams := []func(Config) *Report{c04Infix, c04Index, c04Member, c04Iter, c04Call, c04Builtin, c04Rand, c04Shapes, c04Iface, c04MutIter}
+		streams := []func(Config) *Report{c04Infix, c04Index, c04Member, c04Iter, c04Call, c04Builtin, c04Rand, c04Shapes, c04Iface, c04MutIter, c04Sig}
 		reps := make([]*Report, len(streams))
 		var wg sync.WaitGroup
 		for i := range streams {
